@@ -32,11 +32,17 @@ use std::collections::HashMap;
 pub enum Context<'a> {
     Root {
         functions: FunctionRegistry,
+        #[cfg(not(cel_verif_hash))]
         variables: HashMap<String, Value>,
+        #[cfg(cel_verif_hash)]
+        variables: HashMap<String, Value, crate::verif::SimHashState>,
     },
     Child {
         parent: &'a Context<'a>,
+        #[cfg(not(cel_verif_hash))]
         variables: HashMap<String, Value>,
+        #[cfg(cel_verif_hash)]
+        variables: HashMap<String, Value, crate::verif::SimHashState>,
     },
 }
 
